@@ -1,10 +1,10 @@
 (* Alloc/PageK.v — the integer kernels of src/table.rs (`make_id`, `split_id`, PAGE_LEN constants) and of
    `Id::next_generation` (src/id.rs), hand-transcribed.
 
-   SWAP POINT.  Alloc/Model.v uses only the names defined here.  When the translator's
-   `coq/gen/Kernels.v` provides `k_make_id` / `k_split_id`, replace the two bodies below by the
-   generated kernels (`Definition make_id := k_make_id.`), and re-run the interface lemmas at the
-   end of this file (they are stated on these names only).  Expected types:
+   HAND-WRITTEN STAND-IN.  Alloc/PageKGen.v provides the same names, types and interface lemmas
+   on top of the translator's output (coq/gen/Kernels.v: k_make_id, k_split_id and the k_id_ family).
+   Alloc/Model.v picks one of the two in its single `Require Export` line (default: PageKGen);
+   every other file of the layer gets the kernels through Alloc/Model.v.  Types:
      make_id  : N -> N -> N        (page index, slot index) -> Id index (u32)
      split_id : N -> N * N         Id index -> (page index, slot index)
      next_generation : N -> option N     u32 checked_add(1) *)
